@@ -38,6 +38,7 @@ def run(chk):
     misc_contracts.error_from_exception_contract(chk, "C02")   # the recorded error of a failing run is (str(e), class name): what every replay rebuilds the exception from
     from . import c15
     c15.containers(chk, only=("list", "dict.str_keys"), prefix="C02")
+    c15.serialized_text_is_ascii(chk, "C02", want=("flags",))   # dictionaries come back in the order they were delivered in: no json flag reorders or rewrites them
     c15.containers(chk, only=("batch_result",), prefix="C02")   # a replayed map / parallel result equals the first one item by item (falsy results included)   # RT for containers incl. ownership: what a replay delivers is a fresh value, not an object another delivery can have mutated
     from . import lockset
     lockset.lock_discipline(chk, "C02", ["operations"])   # a re-invocation (REPLAY status) must not raise what the first run cannot: track_replay iterates the map the checkpoint thread updates
